@@ -370,7 +370,16 @@ impl<'a, T: RealNumber, M: Matrix<T>, K: Kernel<T, M::RowVector>> Optimizer<'a, 
 
         while self.gmax - self.gmin > self.tol {
             #[cfg(smartcore_verif)]
-            crate::verif::tick("svr-smo");
+            crate::verif::tick("svr-smo", || {
+                crate::verif::digest_words(self.sv.iter().flat_map(|v| {
+                    vec![
+                        crate::verif::bits(v.alpha[0]),
+                        crate::verif::bits(v.alpha[1]),
+                        crate::verif::bits(v.grad[0]),
+                        crate::verif::bits(v.grad[1]),
+                    ]
+                }))
+            });
             let v1 = self.svmax;
             let i = self.gmaxindex;
             let old_alpha_i = self.sv[v1].alpha[i];
